@@ -10,7 +10,7 @@
    list and returns lo + r mod (hi-lo+1) (the harness replaces randint by exactly this function); hi < lo raises
    ValueError in Python = Crash here.  Exceptions that escape an entry point are Crash. *)
 From Coq Require Import ZArith List Bool.
-From OBB Require Import Gen.TrxdConst Gen.FakeTrxConst Gen.TscTab Model.GsmTime Model.Hopping Model.Trxd.
+From OBB Require Import Base.Dec Gen.TrxdConst Gen.FakeTrxConst Gen.TscTab Model.GsmTime Model.Hopping Model.Trxd.
 Import ListNotations.
 Open Scope Z_scope.
 
@@ -316,14 +316,8 @@ Definition py_int (tok : list Z) : option Z :=
   | r => digits r 0 false
   end.
 
-(* str(int) *)
-Fixpoint dec_fuel (fuel : nat) (n : Z) (acc : list Z) : list Z :=
-  match fuel with
-  | O => acc
-  | S f => let acc' := (48 + n mod 10) :: acc in if n / 10 =? 0 then acc' else dec_fuel f (n / 10) acc'
-  end.
-Definition py_str (n : Z) : list Z :=
-  if n <? 0 then 45 :: dec_fuel (S (Z.to_nat (Z.log2 (- n)))) (- n) [] else dec_fuel (S (Z.to_nat (Z.log2 n))) n [].
+(* str(int): canonical decimal digits, '-' for negatives (Base/Dec.v) *)
+Definition py_str (n : Z) : list Z := dec n.
 
 Definition verb_is (req : list (list Z)) (name : list Z) (argc : nat) : bool :=
   match req with v :: args => list_eqb v name && Nat.eqb (length args) argc | [] => false end.
@@ -450,7 +444,7 @@ Definition parse_cmd (w : world) (i : nat) (req : list (list Z)) (draws : list Z
         | Some (hsn :: maio :: fs) =>
           let ma := pairs (map (fun f => f * 1000) fs) in
           if (length ma =? 0)%nat then (w, CStatus (-1) [], draws)
-          else if (hsn <? 0) || (63 <? hsn) || (maio <? 0) || (63 <? maio) then (w, CStatus (-1) [], draws)
+          else if (hsn <? 0) || (63 <? hsn) then (w, CStatus (-1) [], draws)
           else (upd_trx w i (fun t => set_fh t (Some {| fh_hsn := hsn; fh_maio := maio; fh_ma := ma |})), CStatus 0 [], draws)
         | Some _ => (w, CCrash, draws)
         end
